@@ -7,6 +7,7 @@ import JaxVerif.Lemmas.Array
 import JaxVerif.Generated.CheckCode
 import JaxVerif.Generated.Rollback
 import JaxVerif.Lemmas.Slices
+import JaxVerif.Generated.Skeleton
 
 namespace JV
 
@@ -213,6 +214,11 @@ theorem C01_source_slices_lists {α β : Type} (dims : List α) (shape : List β
         (shape.drop i).take (shape.length - i - (dims.length - i - 1)) ∧
       v.midFirst = v.midBound ∧ v.varIndex = i :=
   ⟨_, C01_source_slices _ _ i hi hm, sliceSpec_lists dims shape i hi hm⟩
+
+/-- what `{name}` axes are evaluated against: both wrappers, as read today, hand `push_shape_memo` the arguments
+    of `signature.bind(*args, **kwargs)` after an unconditional `apply_defaults()` — every parameter of the
+    current call is there, passed or defaulted (`Args` in the model is total over the parameter names) -/
+theorem C01_source_arguments : Generated.pushSeesDefaults = true := by decide
 
 /-! non-vacuity: concrete states meeting the hypotheses -/
 
